@@ -127,8 +127,4 @@ theorem tfrStops_on (own : TfrOwn) (k : Kind) (h1 : own.tt.failfast = true) (h2 
     tfrStops own k = [Call.stop] := by
   unfold tfrStops; simp [h1, h2]
 
-/-- a decorator layer with a `failfast` attribute is well-formed iff the decorator is -/
-theorem wf_ffbox (l b : Bool) (c : Shape) (h : (Shape.ffbox l b c).wf = true) : c.wf = true := by
-  cases c <;> simp_all [Shape.wf]
-
 end TTV.Lemmas.ResEmit
